@@ -279,7 +279,17 @@ func (g *smGen) step() {
 			}
 		case smSendPacingLimited:
 			g.dist["pacing-limited"]++
-			g.now += int64(r.Range(1, 3)) * 1_000_000
+			// what the connection does: ask the handler when to try again, and wait until then
+			if t := g.v.TimeUntilSend(); t > g.now {
+				if r.Chance(3, 4) {
+					g.now = t
+				} else {
+					g.now += (t - g.now) / 2
+				}
+			} else {
+				g.monfail("sendmode/pacing-livelock", fmt.Sprintf("SendMode=pacing-limited at t=%d but TimeUntilSend=%d is not in the future", g.now, t))
+				g.now += int64(r.Range(1, 3)) * 1_000_000
+			}
 		case smSendNone:
 			if r.Chance(1, 2) {
 				g.tr("(received %d bytes)", 1200)
@@ -343,6 +353,21 @@ func (g *smGen) step() {
 			g.send(g.pickEnc(), g.mds, true)
 		}
 	}
+}
+
+// emitSenderTrace: the calls the handler made on its congestion controller during this history
+// (recorded by the spy between the two), as a case of the sender model: the Gallina cubicSender
+// is replayed on the call sequence — order and arguments — that the real sentPacketHandler issued.
+func (g *smGen) emitSenderTrace() {
+	spy := g.v.Spy
+	if len(spy.Steps) == 0 {
+		return
+	}
+	fmt.Fprintf(g.w, "CASE 1 %s\n", u.App("CubicCase", u.Z(spy.Mds0), "true", u.List(spy.Steps)))
+	for k, n := range spy.Calls {
+		g.dist["handler-calls-"+k] += n
+	}
+	g.dist["sender-trace-steps"] += len(spy.Steps)
 }
 
 // ackPns acknowledges exactly the given packet numbers (ascending) of one space.
@@ -499,6 +524,7 @@ func runSendMode(w *bufio.Writer, seed uint64, n int, _ []string) {
 			nt = 1
 		}
 		fmt.Fprintf(w, "CASE %d %s\n", nt, u.App("SendModeCase", u.List(g.obs)))
+		g.emitSenderTrace()
 		if ci < 2 {
 			fmt.Fprintf(w, "SAMPLE\t%s\n", strings.Join(g.trace, " "))
 		}
@@ -516,6 +542,7 @@ func runSendMode(w *bufio.Writer, seed uint64, n int, _ []string) {
 		}
 		g.observe()
 		fmt.Fprintf(w, "CASE 1 %s\n", u.App("SendModeCase", u.List(g.obs)))
+		g.emitSenderTrace()
 	}
 	for k, v := range dist {
 		fmt.Fprintf(w, "DIST\t%s\t%d\n", k, v)
